@@ -1202,11 +1202,14 @@ class Printer:
                     nm0 = f0.get('name') or f0.get('referencedDecl', {}).get('name')
                     if nm0 in eff0:
                         hits0.append(nm0)
-            if hits0 and not [x for x in risky_calls(n) if x not in eff0] and (self.is_value_local(ro) or self.skip(n).get('kind') in ('CXXMemberCallExpr', 'CallExpr')):
-                # a statement whose only model-relevant content is calls with declared ghost effects (also on a local object, e.g.
-                # the local output stream): the effects, in evaluation order of the walk
+            if hits0 and not [x for x in risky_calls(n) if x not in eff0]:
+                # a statement whose calls all have declared ghost effects (also on a local object, e.g. the local output stream):
+                # the effects, in evaluation order of the walk; if the statement also stores into the model, that is a TOUCH()
                 self.fire('abs:call-with-ghost-effect')
-                return ''.join(t + eff0[h] + ';   /* %s */\n' % h for h in hits0)
+                txt0 = ''.join(t + eff0[h] + ';   /* %s */\n' % h for h in hits0)
+                if not (self.is_value_local(ro) or self.skip(n).get('kind') in ('CXXMemberCallExpr', 'CallExpr')):
+                    txt0 += t + 'TOUCH();\n'
+                return txt0
         if self.is_value_local(ro) and not risky_calls(n):
             self.fire('abs:local-only-statement')
             return t + '/* operates on a local variable */;\n'
